@@ -449,6 +449,162 @@ fn c11(r: &mut Rep) {
     }
 }
 
+
+// ---------------------------------------------------------------- shared corpus of flat / lightly nested structs and enums
+// (attributes before the item, the item) ; counterpart is always B
+fn member_templates(i: usize) -> Vec<String> {
+    let x = format!("x{}", i);
+    vec![
+        format!("{}: i32", x),
+        format!("#[map(y{})] {}: i32", i, x),
+        format!("#[map(~.clone())] {}: i32", x),
+        format!("#[map(y{}, ~.clone())] {}: i32", i, x),
+        format!("#[from(~ + 1)] #[into(~ - 1)] {}: i32", x),
+        format!("#[ghost({{ 7 }})] {}: i32", x),
+        format!("#[child(c)] {}: i32", x),
+        format!("#[child(c.d)] {}: i32", x),
+        format!("#[parent] p{}: P", i),
+    ]
+}
+
+fn struct_corpus() -> Vec<(String, String)> {
+    let mut out = vec![];
+    let t0 = member_templates(0);
+    let t1 = member_templates(1);
+    let t2 = member_templates(2);
+    let mut bodies: Vec<String> = vec![];
+    for a in &t0 { bodies.push(a.clone()); for b in &t1 { bodies.push(format!("{}, {}", a, b)); for c in &t2 { bodies.push(format!("{}, {}, {}", a, b, c)); } } }
+    for b in bodies {
+        let cp = if b.contains("#[child(") { "#[child_parents(c: C, c.d: D)]\n" } else { "" };
+        for gh in ["", "#[ghosts(g: { 1 })]\n"] {
+            out.push((format!("{}{}", cp, gh), format!("struct A {{ {} }}", b)));
+        }
+    }
+    out
+}
+
+fn fn_body_tokens(i: &Impl) -> String { i.stmts.iter().map(ts).collect::<Vec<_>>().join(" ") }
+
+// path -> expression of a body that either ends in a (nested) struct literal or assigns to `dst` field by field; plus the other statements
+fn assignments(i: &Impl, dst: &str) -> Result<(BTreeMap<String, String>, Vec<String>), String> {
+    let mut m = BTreeMap::new();
+    let mut rest = vec![];
+    fn flat(prefix: &str, l: &Lit, m: &mut BTreeMap<String, String>) {
+        match l {
+            Lit::Leaf(e) => { m.insert(prefix.to_string(), e.clone()); }
+            Lit::Struct(_, fs) => for (k, v) in fs { flat(&if prefix.is_empty() { k.clone() } else { format!("{}.{}", prefix, k) }, v, m); }
+        }
+    }
+    for st in &i.stmts {
+        match st {
+            syn::Stmt::Semi(syn::Expr::Assign(a), _) => {
+                let l = ts(&a.left).replace(' ', "");
+                if let Some(p) = l.strip_prefix(&format!("{}.", dst)) {
+                    if m.insert(p.to_string(), ts(&a.right).replace(' ', "")).is_some() { return Err(format!("`{}` assigned twice", l)); }
+                } else { rest.push(ts(st).replace(' ', "")); }
+            }
+            syn::Stmt::Expr(e) => {
+                let inner = match e { syn::Expr::Call(c) if ts(&c.func) == "Ok" && c.args.len() == 1 => c.args[0].clone(), e => e.clone() };
+                match lit_of(&inner)? { l @ Lit::Struct(..) => flat("", &l, &mut m), Lit::Leaf(x) => rest.push(x) }
+            }
+            st => rest.push(ts(st).replace(' ', "")),
+        }
+    }
+    Ok((m, rest))
+}
+
+// C07: flavours of one mapping agree (metamorphic relations between the impls of one input, taken from the statement)
+fn c07(r: &mut Rep) {
+    for (pre, item) in struct_corpus() {
+        let src = format!("{}#[map(B)]\n#[try_map(B, E)]\n#[into_existing(B)]\n#[try_into_existing(B, E)]\n{}", pre, item);
+        r.cases += 1;
+        let out = match expand(&src) { Ok(o) => o, Err(_) => { continue; } };   // rejected inputs are outside the statement
+        let is = match impls(&out) { Ok(i) => i, Err(e) => { r.fail(&src, e); continue; } };
+        if is.len() != 12 { r.fail(&src, format!("{} impls instead of 12", is.len())); continue; }
+        let find = |m: &str, by_ref: bool| is.iter().find(|i| i.method == m && (i.head.contains("for & A") || i.head.contains("< & B >")) == by_ref);
+        let norm_ref = |b: String| b.replace("(& (self . ", "(self . ").replace("(& value) .", "value .");
+        let paren_fix = |b: String| { // `(self . p0)) . into_existing` left by the replacement above -> `self . p0 . into_existing`
+            let mut s = b; for k in 0..3 { s = s.replace(&format!("(self . p{})) .", k), &format!("self . p{} .", k)); } s };
+        let mut bad = false;
+        for m in ["from", "into", "into_existing", "try_from", "try_into", "try_into_existing"] {
+            let (o, rf) = match (find(m, false), find(m, true)) { (Some(o), Some(rf)) => (o, rf), _ => { r.fail(&src, format!("missing owned or by-reference impl of {}", m)); bad = true; break; } };
+            // (a) the by-reference body is the owned body, borrowing where the owned one moves
+            let (bo, br) = (paren_fix(norm_ref(fn_body_tokens(o))), paren_fix(norm_ref(fn_body_tokens(rf))));
+            if bo != br { r.fail(&src, format!("[{}] by-reference body differs from the owned one: {} <> {}", m, br, bo)); bad = true; break; }
+        }
+        if bad { continue; }
+        for (plain, fall) in [("from", "try_from"), ("into", "try_into"), ("into_existing", "try_into_existing")] {
+            // (b) the fallible body is Ok(of the infallible one), errors of the poured parent propagated
+            let (p_, f_) = (find(plain, false).unwrap(), find(fall, false).unwrap());
+            let fb = fn_body_tokens(f_).replace("try_into_existing", "into_existing").replace(". try_into () ?", ". into ()").replace(") ? ;", ") ;");
+            let pb = fn_body_tokens(p_);
+            let ok = fb == format!("Ok ({})", pb) || fb == format!("{} Ok (())", pb) || (pb.ends_with(" obj") && fb == format!("{} Ok (obj)", &pb[..pb.len() - 4])) || (pb.is_empty() && fb == "Ok (())");
+            if !ok { r.fail(&src, format!("[{}] is not Ok(..) of [{}]: {} <> {}", fall, plain, fb, pb)); bad = true; break; }
+        }
+        if bad { continue; }
+        // (c) into_existing leaves every mapped field equal to what into builds, and pours the same parents
+        let (i_, e_) = (find("into", false).unwrap(), find("into_existing", false).unwrap());
+        let post = fn_body_tokens(i_).starts_with("let mut obj");
+        match (assignments(i_, "obj"), assignments(e_, "other")) {
+            (Ok((mi, ri)), Ok((me, re))) => {
+                if mi != me { r.fail(&src, format!("into builds {:?}, into_existing assigns {:?}", mi, me)); continue; }
+                let ri: Vec<String> = ri.into_iter().filter(|x| !(post && (x == "letmutobj:B=Default::default();" || x == "obj"))).map(|x| x.replace("(&mutobj)", "(other)")).collect();
+                if ri != re { r.fail(&src, format!("into pours {:?}, into_existing pours {:?}", ri, re)); continue; }
+            }
+            (a, b) => { r.fail(&src, format!("{:?} / {:?}", a.err(), b.err())); }
+        }
+    }
+}
+
+// C17: accepted inputs expand to impl items of the right shape
+fn shape_ok(i: &syn::ItemImpl) -> Result<(), String> {
+    let tr = i.trait_.as_ref().map(|t| ts(&t.1).replace(' ', "")).unwrap_or_default();
+    let table = [("::core::convert::From<", "from", false), ("::core::convert::TryFrom<", "try_from", true), ("::core::convert::Into<", "into", false), ("::core::convert::TryInto<", "try_into", true),
+        ("o2o::traits::IntoExisting<", "into_existing", false), ("o2o::traits::TryIntoExisting<", "try_into_existing", true)];
+    let (_, method, fall) = table.iter().find(|(p, _, _)| tr.starts_with(p)).ok_or(format!("implements `{}`, not one of the six conversion traits", tr))?;
+    let fns: Vec<&syn::ImplItemMethod> = i.items.iter().filter_map(|x| if let syn::ImplItem::Method(m) = x { Some(m) } else { None }).collect();
+    let tys: Vec<&syn::ImplItemType> = i.items.iter().filter_map(|x| if let syn::ImplItem::Type(t) = x { Some(t) } else { None }).collect();
+    if fns.len() != 1 || fns[0].sig.ident != method { return Err(format!("`{}`: methods {:?}, expected exactly `{}`", tr, fns.iter().map(|f| f.sig.ident.to_string()).collect::<Vec<_>>(), method)); }
+    if i.items.len() != 1 + if *fall { 1 } else { 0 } { return Err(format!("`{}`: {} items in the impl", tr, i.items.len())); }
+    if *fall && !(tys.len() == 1 && tys[0].ident == "Error") { return Err(format!("`{}`: no `type Error`", tr)); }
+    let sig = &fns[0].sig;
+    let inputs: Vec<String> = sig.inputs.iter().map(|a| ts(a).replace(' ', "")).collect();
+    let ret = ts(&sig.output).replace(' ', "");
+    let ok = match *method {
+        "from" | "try_from" => inputs.len() == 1 && inputs[0].starts_with("value:"),
+        "into" | "try_into" => inputs == ["self"],
+        _ => inputs.len() == 2 && inputs[0] == "self" && inputs[1].starts_with("other:&mut"),
+    } && (if *fall { ret.starts_with("->::core::result::Result<") } else if method.ends_with("existing") { ret.is_empty() } else { ret.starts_with("->") });
+    if !ok { return Err(format!("`{}`: signature fn {}({}) {}", tr, method, inputs.join(", "), ret)); }
+    Ok(())
+}
+
+fn c17(r: &mut Rep) {
+    let names = ["map", "try_map", "into_existing", "try_into_existing"];
+    let mut inputs: Vec<String> = vec![];
+    for (pre, item) in struct_corpus() {
+        for n in names { inputs.push(format!("{}#[{}(B{})]\n{}", pre, n, if n.contains("try") { ", E" } else { "" }, item)); }
+    }
+    // tuple structs, hints, unit, nameless tuples, enums
+    let more = ["struct A(i32, #[map(1)] i32);", "struct A(#[parent] P, i32);", "struct A;", "struct A { x: i32 }", "struct A(i32);",
+        "enum A { V, W(i32), X { a: i32 } }", "enum A { #[map(Q)] V, #[type_hint(as {})] W(i32), #[type_hint(as ())] X { a: i32 } }", "enum A { V(#[map(~ + 1)] i32), W { #[map(b)] a: i32 } }"];
+    let heads = ["B", "B as ()", "B as {}", "B as Unit", "(i32, i32)"];
+    for m in more { for h in heads { for n in ["map", "try_map", "into_existing", "try_into_existing", "from_owned", "ref_into"] {
+        if m.starts_with("enum") && (h != "B" || n.contains("existing")) { continue; }   // enum x into_existing: recorded open defect (DESIGN section 6)
+        inputs.push(format!("#[{}({}{})]\n{}", n, h, if n.contains("try") { ", E" } else { "" }, m));
+    } } }
+    inputs.push("#[map(i32| _ => todo!())]\nenum A { #[literal(1)] V, #[pattern(2..=3)] #[into({ 2 })] W }".into());
+    inputs.push("#[map(B)]\n#[ghosts(Z: { A::V })]\nenum A { V, #[ghost({ B::V })] W }".into());
+    for src in inputs {
+        r.cases += 1;
+        let out = match expand(&src) { Ok(o) => o, Err(_) => continue };   // only accepted inputs are in the statement
+        let f: syn::File = match syn::parse_str(&out) { Ok(f) => f, Err(e) => { r.fail(&src, format!("the expansion is not a sequence of Rust items: {} :: {}", e, out.chars().take(400).collect::<String>())); continue; } };
+        for it in &f.items {
+            match it { syn::Item::Impl(i) => if let Err(e) = shape_ok(i) { r.fail(&src, e); break; }, o => { r.fail(&src, format!("not an impl item: {}", ts(o).chars().take(100).collect::<String>())); break; } }
+        }
+    }
+}
+
 fn main() {
     panic::set_hook(Box::new(|_| {}));
     let suite = std::env::args().nth(1).unwrap_or_default();
@@ -457,6 +613,8 @@ fn main() {
         "c08" => c08(&mut r),
         "c03" => c03(&mut r),
         "c11" => c11(&mut r),
+        "c07" => c07(&mut r),
+        "c17" => c17(&mut r),
         _ => { eprintln!("usage: structural c08|c03|c11"); std::process::exit(2); }
     }
     println!("{{\"suite\":\"{}\",\"cases\":{},\"failures\":{}}}", suite, r.cases, r.fails.len());
